@@ -45,10 +45,11 @@ def run_history(fa, cid, schema, ops, codec, interval, donors, validator=False, 
     events = []
     payload_files = []
 
-    def snap():
+    def snap(observe_only=False):
         f = holder["fo"]
         if path:
-            f.flush()
+            if not observe_only:
+                f.flush()          # bring the file object's own buffer to the file so that the operation's effect can be seen ...
             with open(path, "rb") as g:
                 return list(g.read())
         return list(f.getvalue())
@@ -70,7 +71,8 @@ def run_history(fa, cid, schema, ops, codec, interval, donors, validator=False, 
             events.append({"op": "write", "rec": proj.pv(op[1]), "raised": raised, "stream": snap()})
         elif op[0] == "flush":
             w.flush()
-            ev = {"op": "flush", "raised": False, "stream": snap()}
+            # ... except after flush(): what the Writer's flush leaves in the file object's buffer is not on the stream
+            ev = {"op": "flush", "raised": False, "stream": snap(observe_only=True)}
             try:
                 recs = list(fa.reader(io.BytesIO(bytes(ev["stream"]))))
                 ev["readback"] = {"ok": True, "recs": [proj.pv(r) for r in recs]}
